@@ -48,7 +48,8 @@ def correspond(ctx):
     s_hist = Suite(ctx, "disable-enable-histories")
     md5h = md5_crypt.hash("pw")
     originals = [None, "", "!", "*", "!!", "!*", "*!x", "!" + md5h, "*" + md5h, md5h, sha256_crypt.using(rounds=1000).hash("pw"), ldap_md5.hash("pw"),
-                 "plain text", "$1$", "$unknown$abc", " !", "x", "!x", "é!", "!" * 5 + "a"]
+                 "plain text", "$1$", "$unknown$abc", " !", "x", "!x", "é!", "!" * 5 + "a",
+                 "a9993e364706816aba3e25717850c26c9cd0d89d", "*" + "A9993E364706816ABA3E25717850C26C9CD0D89D", "900150983cd24fb0d6963f7d28e17f72"]
     ctxs = [(CryptContext(s), spec) for s, spec in CONTEXTS] + [(CryptContext(STAR[0], **STAR[2]), STAR[1])]
     for c, spec in ctxs:
         for h in originals:
@@ -77,6 +78,9 @@ def correspond(ctx):
         for p in ("", "pw"):
             calls.clear()
             suite.add(f"dis verify {spec} {cps(p)} none", lambda c=c, p=p, calls=calls: str(int(c.verify(p, None))) + f" dummy={len(calls)}", "verify-none")
+            # the same promise through the entry point applications use for logins
+            suite.add(f"dis verify {spec} {cps(p)} none", lambda c=c, p=p, calls=calls: (lambda r: ("0" if r == (False, None) else repr(r)) + f" dummy={len(calls)}")(
+                (calls.clear(), c.verify_and_update(p, None))[1]), "verify_and_update-none")
     # histories
     for _ in range(300 if not ctx.thorough else 5000):
         c, spec = rng.choice([x for x in ctxs if "django" not in x[1]][:3] + [ctxs[-1]])
@@ -97,6 +101,31 @@ def correspond(ctx):
     return merge(suite, s_hist)
 
 
+def every_scheme_hash():
+    """one hash of "pw" from every registered scheme that can make one quickly (original hashes 'from every scheme')"""
+    from passlib import registry
+
+    out = []
+    for name in sorted(registry.list_crypt_handlers()):
+        if name.endswith("_disabled") or name in ("roundup_plaintext",):
+            continue
+        try:
+            h = registry.get_crypt_handler(name)
+            kw = {}
+            if getattr(h, "min_rounds", None) is not None and "rounds" in getattr(h, "setting_kwds", ()):
+                kw["rounds"] = max(h.min_rounds, 1)
+            if name == "scrypt":
+                kw["rounds"] = 1
+            hh = h.using(**kw) if kw else h
+            ckw = {"user": "user"} if "user" in getattr(h, "context_kwds", ()) else {}
+            v = hh.hash("pw", **ckw)
+            if isinstance(v, str):
+                out.append((name, v))
+        except Exception:  # noqa: BLE001
+            continue
+    return out
+
+
 def search(ctx, broken, seeds):
     """the property's statement evaluated on the real code"""
     warnings.simplefilter("ignore")
@@ -104,13 +133,14 @@ def search(ctx, broken, seeds):
     from passlib.hash import bcrypt, des_crypt, ldap_md5, md5_crypt, sha256_crypt
 
     originals = [md5_crypt.hash("pw"), sha256_crypt.using(rounds=1000).hash("pw"), des_crypt.hash("pw"), ldap_md5.hash("pw")]
+    extra = [v for _n, v in every_scheme_hash()]
     lists = [["md5_crypt", "sha256_crypt", "des_crypt", "ldap_md5"]]
     for schemes in lists:
         for pos in range(len(schemes) + 1):
             for dname, kw in (("unix_disabled", {}), ("unix_disabled", {"unix_disabled__marker": "*"}), ("django_disabled", {})):
                 sl = schemes[:pos] + [dname] + schemes[pos:]
                 c = CryptContext(sl, **kw)
-                for orig in [None, "", "!", "*"] + originals + ["!" + originals[0], "*" + originals[0]]:
+                for orig in [None, "", "!", "*"] + originals + ["!" + originals[0], "*" + originals[0]] + extra + ["!" + x for x in extra] + ["*" + x for x in extra]:
                     def fail(what, observed):
                         return {"input": {"op": "disabled", "schemes": sl, "options": kw, "original": orig}, "observed": {what: observed},
                                 "expected": "disabled string identified as disabled, verifies False for every password, stable under disable, enable restores the embedded hash"}
@@ -150,6 +180,11 @@ def search(ctx, broken, seeds):
                 c.dummy_verify = lambda n=n, real=real: (n.append(1), real())[1]
                 if c.verify("pw", None) is not False or len(n) != 1:
                     return {"input": {"op": "verify-none", "schemes": sl}, "observed": {"dummy_calls": len(n)}, "expected": "False and one dummy verification"}
+                del n[:]
+                r = c.verify_and_update("pw", None)
+                if r != (False, None) or len(n) != 1:
+                    return {"input": {"op": "verify_and_update-none", "schemes": sl}, "observed": {"result": repr(r), "dummy_calls": len(n)},
+                            "expected": "(False, None) and one dummy verification"}
     return None
 
 
